@@ -160,6 +160,10 @@ pub fn case(rng: &mut Rng, w: &Weights, tag: &str) -> String {
     // constructor
     let ctor = if w.palette > 0 && rng.chance(3, 4) { 5 } else { rng.below(6) };
     let mut wide = false;
+    // the start tree lives in a re-rooted arena: its disconnected draft root is still listed by the arena-order
+    // iterators (the documented exception of `Tree::add_root`), so only operations that walk from the root are applied
+    // to it — `infeasible_elimination`, repeatedly
+    let mut rerooted_start = false;
     let mut t: AffTree<2> = match ctor {
         0 => {
             m = n;
@@ -225,7 +229,19 @@ pub fn case(rng: &mut Rng, w: &Weights, tag: &str) -> String {
                 TreeParams { in_dim: n, out_dim: m, max_depth: 2 + rng.below(2), partial16: w.partial16, holes: rng.chance(1, 3), palette: 0 }
             };
             out.push_str("tree");
-            rand_tree(rng, &tp)
+            let t0: AffTree<2> = rand_tree(rng, &tp);
+            if w.elim > 0 && rng.chance(1, 5) {
+                rerooted_start = true;
+                // the same tree in a re-rooted arena: the root is not slot 0 (slot 0 holds the disconnected draft)
+                enc::ORPHAN.with(|o| o.set(Some(0)));
+                crate::gen::rerooted(rng, &t0)
+            } else if rng.chance(1, 5) {
+                // grown upwards: a new root on top, the former root (slot 0) is an inner node now
+                let part = w.partial16 > 0 && rng.chance(1, 4);
+                crate::gen::uprooted(rng, &t0, m, part)
+            } else {
+                t0
+            }
         }
     };
     out.push_str(" | ");
@@ -258,6 +274,9 @@ pub fn case(rng: &mut Rng, w: &Weights, tag: &str) -> String {
         }
         out.push_str(" ; ");
         let mut pick = rng.next() % total;
+        if rerooted_start {
+            pick = w.apply_func + w.compose0 + w.compose1;
+        }
         let (plan_s, plan) = fault_plan(rng, w.faults, wide);
         let mut opdesc = String::new();
         // build the operation as a closure over a clone, run it under the hooks
@@ -267,7 +286,7 @@ pub fn case(rng: &mut Rng, w: &Weights, tag: &str) -> String {
         let run: Box<dyn FnOnce(&mut AffTree<2>)>;
         // now and then the user adds witnesses of their own to the public cache of a node (the cache is a list):
         // points strictly inside the node's path region, next to the cached one
-        let planted = if rng.chance(1, 10) { plant_witnesses(rng, &t) } else { None };
+        let planted = if !rerooted_start && rng.chance(1, 10) { plant_witnesses(rng, &t) } else { None };
         if let Some((idx, pts)) = planted {
             write!(opdesc, "plant {} {}", idx, pts.len()).unwrap();
             for x in &pts {
@@ -418,7 +437,8 @@ pub fn case(rng: &mut Rng, w: &Weights, tag: &str) -> String {
             let mut b = t.clone();
             catch_unwind(AssertUnwindSafe(|| {
                 b.infeasible_elimination();
-                b.len()
+                // nodes of the tree: the disconnected draft root of a re-rooted arena is not one of them
+                b.len() - if rerooted_start { 1 } else { 0 }
             }))
             .ok()
         } else {
